@@ -33,6 +33,9 @@ def run(prog, chk):
     all_boxes_combined(prog, chk)
     from props import C10
     C10.containment_every_target(prog, chk)  # every listed element contributes its box
+    from props import C08
+    C08.degenerate_boxes(prog, chk)  # `inside`: an intersection of zero width / height is still a region
+    inscribed_for_placed_shape(prog, chk)
     from props import strops
     strops.check_for(prog, chk, "C12")  # A14.str-ops: how this property's strings are cut up is a reviewed, frozen inventory
 
@@ -221,6 +224,19 @@ def accumulator(prog, chk):
         ok = in_loop and src_local is not None and src_local == dst_local
         detail = f"receiver comes from `{f.local_name(src_local) if src_local is not None else None}`, result goes to `{f.local_name(dst_local) if dst_local is not None else None}`"
     chk.ob(ok, "A13.fold-accumulator", "BoundingBox::intersection", f.where(), "intersection() intersects each further box with the running result (the accumulator is both operand and destination)", "intersection() does not fold over a carried accumulator: " + detail)
+
+
+def inscribed_for_placed_shape(prog, chk):
+    """`inside`: the area a listed element offers is computed for the shape of the element *being placed*:
+    inscribed_bbox() is given self.name"""
+    b = prog.body("svgdx::element::SvgElement::handle_containment")
+    chk.touch(b)
+    sites = b.call_sites(R.path_endswith("SvgElement::inscribed_bbox"))
+    chk.floor("A13.inscribed-shape", len(sites), 1, "inscribed_bbox call in handle_containment")
+    for (bb, t, c) in sites:
+        o = R.origin(b, t["args"][1], carriers=dict(R.CARRIERS, as_str=0, deref=0, as_ref=0)) if len(t["args"]) > 1 else ("?",)
+        ok = o[0] == "field" and o[1][0] == 1 and [str(z) for z in o[1][1] if z != "*"] == [".name"]
+        chk.ob(ok, "A13.inscribed-shape", "handle_containment", b.where(bb, t.get("line")), "inscribed_bbox is asked for the shape of the element being placed (self.name)", f"inscribed_bbox is asked for a shape other than the placed element's own ({o[0]}): a rect placed inside circles is fitted into the area meant for another shape and sticks out")
 
 
 def all_boxes_combined(prog, chk):
